@@ -1,0 +1,15 @@
+//go:build verif
+
+package smtp
+
+import (
+	"github.com/inbucket/inbucket/v3/pkg/extension"
+	"github.com/inbucket/inbucket/v3/pkg/message"
+	"github.com/inbucket/inbucket/v3/pkg/policy"
+)
+
+// VerifWiring returns the manager, the address policy and the extension host this server was built with
+// (verification harness only).
+func (s *Server) VerifWiring() (message.Manager, *policy.Addressing, *extension.Host) {
+	return s.manager, s.addrPolicy, s.extHost
+}
